@@ -46,7 +46,7 @@ BUILT = {
    'TLA+ spec + TLC bounded universe (MC_Eval C13) with replay + trace validation with hand-assembled expectations', '6 C13'),
 
  'C03': ('model_checking',
-   'TLC evaluates the resolver (BklFiles as a function, BklResolver as a small-step machine with one action per step the program reports in its -v log; invariants StackIsChain, NoFileTwiceOnStack, ParentsBeforeChild, LoadedBeforeMerged on every intermediate state and RefinesRunLayers at the end) composed with the Parser machine on every layout of the bounded model MC_Files (filename chains of depth 1-4 under every rotation of 5 extensions, virtual inputs, every missing layer, the same chains written with $parent, 15 $parent forms, $parent in a second document, symlinks, several inputs with and without -P, diamonds, equal file names in two directories, layers read from standard input), asserts BaseFirst / ParentEqFilename / MissingIsError / SkipParents on the order lists, and each layout is materialised in a fresh directory and run through the real bkl -v, whose output and step log must equal the specification's. Random layouts (two chains, depth <= 4, mixed extensions, all $parent forms, two-document files, symlinked and virtual inputs, -P) are run through the real binary and validated by TLC against RunLayers and, step by step, against the small-step resolver.',
+   'TLC evaluates the resolver (BklFiles as a function, BklResolver as a small-step machine with one action per step the program reports in its -v log; invariants StackIsChain, NoFileTwiceOnStack, ParentsBeforeChild, LoadedBeforeMerged on every intermediate state and RefinesRunLayers at the end) composed with the Parser machine on every layout of the bounded model MC_Files (filename chains of depth 1-4 under every rotation of 5 extensions, virtual inputs, every missing layer, the same chains written with $parent, 15 $parent forms, $parent in a second document, symlinks, several inputs with and without -P, diamonds, equal file names in two directories, layers read from standard input), asserts BaseFirst / ParentEqFilename / MissingIsError / SkipParents on the order lists, and each layout is materialised in a fresh directory and run through the real bkl -v, whose output and step log must equal those of the specification. Random layouts (two chains, depth <= 4, mixed extensions, all $parent forms, two-document files, symlinked and virtual inputs, -P) are run through the real binary and validated by TLC against RunLayers and, step by step, against the small-step resolver.',
    'Trusts TLC, the tv projection and the harness file emitters (encoding/json, yaml.v3, go-toml used as writers). Layouts where two files provide one layer name are excluded, as the property states. A symlink keeps its target\'s extension (the format is taken from the name).',
    'TLA+ resolver+Parser machines (BklFiles) + TLC bounded layout model with replay on the real binary + TLC trace validation of recorded runs', '6 C03'),
  'C18': ('model_checking',
